@@ -163,8 +163,45 @@ pub fn error_chain(err: &dyn std::error::Error) -> String {
     strip_ansi(&s)
 }
 
-/// Runs `f` as a simulated process: seams installed, panics caught.
+/// Hands a value to the thread of a simulated process and back. Sound here because the two
+/// threads never run at the same time: the parent is blocked in `join` for the whole life of
+/// the child (the `Rc`s inside are only ever touched by one thread at a time).
+struct HandOver<T>(T);
+unsafe impl<T> Send for HandOver<T> {}
+impl<T> HandOver<T> {
+    fn open(self) -> T {
+        self.0
+    }
+}
+
+/// Runs `f` as a simulated process: seams installed, panics caught. Every simulated process
+/// gets a **fresh OS thread** (8 MiB stack, as a main thread has), so that whatever okane
+/// keeps in thread-local or per-thread state starts out as it does in a fresh process and
+/// cannot leak from one simulated process - or one run - into the next.
 pub fn in_process<T>(vfs: &Rc<Vfs>, hash_seed: u64, f: impl FnOnce() -> T) -> Result<T, PanicInfo> {
+    let job = HandOver((vfs.clone(), f));
+    let out = std::thread::scope(|scope| {
+        std::thread::Builder::new()
+            .stack_size(crate::driver::WORKER_STACK)
+            .spawn_scoped(scope, move || {
+                let (vfs, f) = job.open();
+                HandOver(in_this_thread(&vfs, hash_seed, f))
+            })
+            .expect("spawn the thread of a simulated process")
+            .join()
+    });
+    match out {
+        Ok(r) => r.open(),
+        // in_this_thread catches every unwind; the thread itself cannot panic
+        Err(_) => Err(PanicInfo {
+            message: "<the thread of a simulated process died>".into(),
+            location: String::new(),
+            frame: String::new(),
+        }),
+    }
+}
+
+fn in_this_thread<T>(vfs: &Rc<Vfs>, hash_seed: u64, f: impl FnOnce() -> T) -> Result<T, PanicInfo> {
     okane_core::verif::set_world(Some(vfs.clone() as Rc<dyn okane_core::verif::World>));
     okane_core::verif::set_hash_seed(Some(hash_seed));
     LAST_PANIC.with(|p| *p.borrow_mut() = None);
